@@ -968,3 +968,53 @@ def fold_calls_to_operators(tree, recorded):
         tree.body[i] = T().visit(st)
     ast.fix_missing_locations(tree)
     return n
+
+
+# ---------------------------------------------------------------------------------------------------------------------
+# single exit:  if c: r = A  elif d: r = B  else: r = C ;  return r      is      if c: return A  elif d: return B  else: return C     (r a NEW local)
+# ---------------------------------------------------------------------------------------------------------------------
+def sink_final_return(tree, expected):
+    n = 0
+    for key, fn in alpha.scopes(tree):
+        exp = expected.get(key)
+        if exp is None or not isinstance(fn, (ast.FunctionDef, ast.AsyncFunctionDef)) or len(fn.body) < 2:
+            continue
+        chain, last = fn.body[-2], fn.body[-1]
+        if not (isinstance(chain, ast.If) and chain.orelse and isinstance(last, ast.Return) and isinstance(last.value, ast.Name) and last.value.id not in exp):
+            continue
+        r = last.value.id
+        arms, cur = [], chain
+        while True:
+            arms.append(cur.body)
+            if len(cur.orelse) == 1 and isinstance(cur.orelse[0], ast.If):
+                cur = cur.orelse[0]
+            else:
+                arms.append(cur.orelse)
+                break
+        def ends_with_assign(b):
+            return b and isinstance(b[-1], ast.Assign) and len(b[-1].targets) == 1 and isinstance(b[-1].targets[0], ast.Name) and b[-1].targets[0].id == r
+        if not all(ends_with_assign(b) or (b and isinstance(b[-1], (ast.Raise, ast.Return))) for b in arms) or not any(ends_with_assign(b) for b in arms):
+            continue
+        stores = sum(1 for x in ast.walk(fn) if isinstance(x, ast.Name) and x.id == r and isinstance(x.ctx, ast.Store))
+        loads = sum(1 for x in ast.walk(fn) if isinstance(x, ast.Name) and x.id == r and isinstance(x.ctx, ast.Load))
+        if stores != sum(1 for b in arms if ends_with_assign(b)) or loads != 1:
+            continue
+        for b in arms:
+            if ends_with_assign(b):
+                b[-1] = ast.copy_location(ast.Return(value=b[-1].value), b[-1])
+        del fn.body[-1]
+        if all(b and isinstance(b[-1], (ast.Raise, ast.Return)) for b in arms):           # every arm leaves: the chain is a sequence of guards and the last arm the rest
+            flat, cur = [], chain
+            while True:
+                nxt = cur.orelse
+                cur.orelse = []
+                flat.append(cur)
+                if len(nxt) == 1 and isinstance(nxt[0], ast.If):
+                    cur = nxt[0]
+                else:
+                    flat += nxt
+                    break
+            fn.body[-1:] = flat
+        ast.fix_missing_locations(fn)
+        n += 1
+    return n
